@@ -232,6 +232,10 @@ def _elem_src(out, el, spelling):
             out.add(" " + pre + sname + "=" + quote)
             stmt_value(out, sname, val, quote)
             out.add(quote)
+    for raw in el.get("extra_attrs", ()):
+        # attributes of other template-language namespaces (METAL, I18N),
+        # written verbatim by the checks that use them
+        out.add(raw)
     cs = el.get("close_space", "")
     if el.get("selfclose"):
         out.add(cs + "/>")
